@@ -46,3 +46,20 @@ package commands
 //@     after call commands.parseOptionOnMissing returning o, e : missOK = e == nil
 //@     before call storage.OpenFGADatastore.Write args _, _, st, dels, wrs : assert validated && dupOK && missOK && st == req.GetStoreId() && dels == req.GetDeletes().GetTupleKeys() && wrs == req.GetWrites().GetTupleKeys()
 //@     after call storage.OpenFGADatastore.Write returning e : written = true
+
+// ------------------------------------------------------------------ Check command wiring (C10, C11)
+// the consistency preference and the cache controller's invalidation time reach the resolver unchanged; the
+// controller is not consulted for HIGHER_CONSISTENCY
+//@ func (*CheckQuery).Execute(c, ctx, params) (res, err)
+//@   property C10 C11
+//@   option nosafety
+//@   option stable params
+//@   monitor wiring
+//@     ghost detCalled = false
+//@     ghost detTime S_time.Time = detTime
+//@     ghost reqMade ref = nil
+//@     before call cachecontroller.CacheController.DetermineInvalidationTime args _, _, st : assert params.Consistency != openfgav1.ConsistencyPreference_HIGHER_CONSISTENCY && st == params.StoreID
+//@     after call cachecontroller.CacheController.DetermineInvalidationTime returning t : detCalled = true ; detTime = t
+//@     before call graph.NewResolveCheckRequest args p : assert p.Consistency == params.Consistency && p.StoreID == params.StoreID && p.Context == params.Context && (params.Consistency != openfgav1.ConsistencyPreference_HIGHER_CONSISTENCY ==> detCalled && p.LastCacheInvalidationTime == detTime)
+//@     after call graph.NewResolveCheckRequest returning r, e : reqMade = r
+//@     before call graph.CheckResolver.ResolveCheck args _, _, r : assert r == reqMade
